@@ -30,6 +30,13 @@ EncViol(ev) ==
                         IF ev.ct # 2 THEN <<0,0>> ELSE IF legacy THEN Tup(ev.pcrca[i+1]) ELSE Tup(ev.pcrc[i+1]),
                         Tup(ev.libver), Tup(ev.bever), legacy)
          THEN {"C07 header bytes differ from the independent serializer"} ELSE {})
+\* fragments rebuilt by reconstruct while the switch has another value than when the stripe was encoded: every byte is
+\* what the serializer gives for the switch in force at the reconstruct call (C10: writers = encode and reconstruct)
+RecBViol(ev) ==
+   LET n == ev.k + ev.m  legacy == LegacyOn(ev.legacy) IN
+   IF ev.rc # 0 THEN {"C03 reconstruct of a single missing fragment failed"}
+   ELSE IF \E i \in 0..(n-1) : Tup(ev.frags[i+1]) # Fragment(ev.be, ev.k, ev.m, ev.hd, ev.ct, Tup(ev.data), i, Tup(ev.libver), Tup(ev.bever), legacy)
+        THEN {"C10 reconstructed fragment differs from the serializer under the switch in force at the call"} ELSE {}
 SizeViol(ev) ==
      (IF ev.aligned # Aligned(ev.be, ev.k, ev.len) THEN {"C08 aligned-size query"} ELSE {})
 \cup (IF ev.frag # FragSize(ev.be, ev.k, ev.len) THEN {"C08 fragment-size query differs from what encode produces"} ELSE {})
@@ -92,6 +99,7 @@ LayoutViol(ev) ==
 
 Viol(ev) ==
    CASE ev.e = "EncB" -> EncViol(ev)
+     [] ev.e = "RecB" -> RecBViol(ev)
      [] ev.e = "Size" -> SizeViol(ev)
      [] ev.e = "SizeDead" -> IF ev.aligned >= 0 \/ ev.frag >= 0 \/ ev.min >= 0 THEN {"C08 size query on an unknown descriptor must fail"} ELSE {}
      [] ev.e = "MetaOwn" -> MetaOwnViol(ev)
